@@ -391,7 +391,7 @@ func genC19Tasks(g *Gen, seed uint64, idx int64) []C19Task {
 				// the same call on the same (shared) arguments as another task: the configuration
 				// in which a per-function cache or scratch buffer is hit from two sides
 				call = prev[g.R.Intn(len(prev))].clone()
-				if g.R.Chance(1, 3) {
+				if g.R.Chance(1, 2) {
 					// ... or its sibling: the same geometry with another scalar parameter (radius,
 					// layer count, target zoom, altitude base) - the configuration in which a cache
 					// keyed too coarsely, or a "current parameter" kept between two critical sections,
@@ -512,6 +512,12 @@ func (w *Worker) runC19Case(idx int64) {
 			budget = 4 + g.R.Intn(13)
 		}
 	}
+	// every third case with a preemption budget: chained preemptions (the task that got control
+	// is preempted again a few synchronisation operations later)
+	chain := 0
+	if budget > 0 && g.R.Chance(1, 3) {
+		chain = 2 + g.R.Intn(5)
+	}
 	rs := simrt.NewRand(simrt.Mix(w.Seed, uint64(idx), 1901))
 	mk := func(solo []*c19Run) *simrt.Sched {
 		s := simrt.NewSched(rs)
@@ -526,6 +532,9 @@ func (w *Worker) runC19Case(idx int64) {
 			} else if y > 0 {
 				s.PreemptAt[simrt.PKey{Task: t, Class: 0, Idx: rs.Intn(y)}] = true
 			}
+		}
+		if chain > 0 {
+			s.Chain = chain
 		}
 		// when the library starts goroutines of its own, also preempt at global positions: the
 		// running task may then be one of those goroutines
